@@ -50,6 +50,12 @@ func runC06(c *core.Ctx) {
 		return
 	}
 	c06Exprs(c, root)
+	// neighbours' rules that are necessary conditions of this property too (round 5)
+	c.Rule("C06.dims", "A4 (= C10.dims): the group a point belongs to is computed from the grouping node's own dimension list, shared by every point: a slice obtained from a message's Dimensions()/TagNames is not filtered or appended to in place (x[:0], append(x[:i]…))")
+	c.As("C10.dims", "C06.dims", func() { c10Dims(c, []*packages.Package{root}) })
+	c.Rule("C06.buffer", "A4 (= C12.buffer): one BatchBuffer serves all groups of a parent: BatchBuffer.BeginBatch replaces its point slice by a fresh make(...) on every path and copies the begin message — a batch of one group held downstream must not be overwritten by the next group's points")
+	c.As("C12.buffer", "C06.buffer", func() { c12Buffer(c, edge) })
+	ruleDerivedGroupID(c, edge, "C06.derivedid")
 	c06Consumer(c, edge)
 	c06GroupID(c, models)
 	c06DimsEqual(c, models)
